@@ -64,6 +64,15 @@ def get(name):
         return T.voronoi_at(T.hex_sites(int(m.group(1)), int(m.group(2)), int(m.group(3)) / 100.0, int(m.group(4))))
     if name == "lens":
         return T.lens_at(0.8)
+    m = re.fullmatch(r"(.+)\+lens(\d+)", name)
+    if m:
+        # <base>+lens<n>: a lens cell squeezed into the n-th interface of <base> whose two ends are both interior junctions
+        # (three cells each); the tissue stays in exact force balance
+        at = get(m.group(1))
+        jc = T.junction_cells(at)
+        cand = [ii for ii, it in enumerate(at["I"]) if it["L"] is not None and it["R"] is not None and it["phi"] == 0.0
+                and len(jc[it["a"]]) >= 3 and len(jc[it["b"]]) >= 3]
+        return T.add_lens(at, cand[int(m.group(2)) % len(cand)], 0.8)
     m = re.fullmatch(r"fan(\d+)", name)
     if m:
         return T.polygons_at(T.fan_polys(int(m.group(1))))
